@@ -129,7 +129,7 @@ static void vf_violation(const char *sig, const char *body)
 
 /* ----------------------------------------------- fatal outcome capture */
 static void (*vf_fatal_describe)(vf_str *out);     /* set by the driver */
-static char vf_fatal_buf[1 << 20];
+static char vf_fatal_buf[1 << 21];
 static volatile sig_atomic_t vf_fatal_entered;
 static const char *vf_fatal_kind = "signal";
 
@@ -438,6 +438,7 @@ static int vf_finish(const vf_evidence_spec *es, int deaths)
     char path[256];
     snprintf(path, sizeof path, "%s/evidence", VF_ROOT); mkdir(path, 0777);
     snprintf(path, sizeof path, "%s/evidence/%s.json", VF_ROOT, vf_g.prop);
+    if (getenv("VERIF_EVIDENCE_DIR")) snprintf(path, sizeof path, "%s/%s.json", getenv("VERIF_EVIDENCE_DIR"), vf_g.prop);   /* scratch runs on other trees */
     if (getenv("VERIF_EVIDENCE_OUT")) snprintf(path, sizeof path, "%s", getenv("VERIF_EVIDENCE_OUT"));    /* secondary build variants of one check */
     FILE *f = fopen(path, "w");
     if (!f) vf_die("cannot write %s", path);
